@@ -337,3 +337,35 @@ package updog
 //@   assumes valid_cache_given: CacheValid(cache)
 //@ func [C15,C16] WithIndexMetrics$1(c) (err) inherits IndexOption.call
 //@   assumes metrics_given: metrics != nil
+
+// ---------------------------------------------------------------------------------------------------------------
+// writer.go — in-memory index writer (C05, C06, C16, C18)
+
+// the keys of an index file: 'S' (schema), 'I' (row counter), 'V' + 8 bytes (bitmap of a value index)
+//@ pure kS() key
+//@ pure kI() key
+//@ axiom kS_def: klen(kS()) == 1 && kat(kS(), 0) == 83
+//@ axiom kI_def: klen(kI()) == 1 && kat(kI(), 0) == 73
+//@ pred WriterInv(w *IndexWriter) := w != nil && w.schema != nil && w.schema.Columns != nil && w.values != nil
+//@   && (forall h uint64 :: (h in w.values) ==> w.values[h] != nil)
+//@   && (forall c string :: (c in w.schema.Columns) ==> w.schema.Columns[c] != nil && w.schema.Columns[c].Values != nil)
+
+// optimize starts one goroutine per bitmap (outside the verifier's subset): trusted to change no bitmap content
+//@ trusted func (*IndexWriter).optimize(idx)
+//@   requires idx != nil
+
+//@ func [C06,C16,C05] (*IndexWriter).WriteToBoltDatabase(idx, db) (err)
+//@   requires WriterInv(idx) && idx.mtx.held == 0 && DBOpen(db) && !db.wopen
+//@   requires [C06] output_has_no_index_yet: !sin(db.committed, kS())
+//@   modifies db.committed; db.commits; db.ncommits; db.wopen
+//@   ensures [C06] partial_states_are_rejected: forall j int :: old(db.ncommits) <= j && j < db.ncommits - 1 ==> !sin(db.commits[j], kS())
+//@   ensures [C06] error_leaves_no_index: err != nil ==> (forall j int :: old(db.ncommits) <= j && j < db.ncommits ==> !sin(db.commits[j], kS()))
+//@   ensures [C06,C05] complete_at_the_end: err == nil ==> db.ncommits > old(db.ncommits) && db.commits[db.ncommits - 1] == db.committed
+//@        && shas(db.committed) && sin(db.committed, kS()) && sin(db.committed, kI()) && blen(sval(db.committed, kI())) == 4
+//@   ensures [C06] no_transaction_left_open: !db.wopen && !db.closed && idx.mtx.held == 0
+//@   loop 1
+//@     invariant tx != nil && tx.gdb == db && tx.writable && !tx.done && db.wopen && !db.closed && bucket != nil && bucket.gtx == tx
+//@     invariant !(tx in old($alloc)) && !(bucket in old($alloc))
+//@     invariant WriterInv(idx) && idx.mtx.held == 2 && db.ncommits >= old(db.ncommits) && shas(tx.work)
+//@     invariant !sin(tx.work, kS())
+//@     invariant forall j int :: old(db.ncommits) <= j && j < db.ncommits ==> !sin(db.commits[j], kS())
